@@ -29,6 +29,7 @@ type c07Input struct {
 type c07Rule struct {
 	Actions []string `json:"action"`
 	Secrets [][]byte `json:"secret"`
+	Sparse  bool     `json:"sparse,omitempty"` // C08: the grant's JSON leaves empty lists out
 }
 
 func safeMatch(pat, name string) (res uint64) {
